@@ -286,7 +286,7 @@ package http2
 //@ |   (forall(k, 0, cnt, sk(d,k) != id) ==> field == was)
 
 //@ func (*Settings).Read
-//@ props C18 C05 C16 C17
+//@ props C18 C05 C16 C17 C06 C07
 //@ requires recv: st != nil
 //@ modifies st.tableSize, st.enablePush, st.maxStreams, st.windowSize, st.frameSize, st.headerSize, st.hasWindowSize
 //@ loop 0: invariant step: i == last + 6 && last % 6 == 0 && last >= 0 && last <= n && n == len(d)
@@ -1051,7 +1051,7 @@ package http2
 //@ ensures closed: strm.bodyStream == nil
 
 //@ func (*serverConn).refillPending
-//@ props C06
+//@ props C06 C01
 //@ requires args: sc != nil && strm != nil && strm.bodyStream != nil
 //@ # ASSUMPTION: the int64 count of body octets read does not overflow
 //@ opt noovf=true
@@ -1059,6 +1059,10 @@ package http2
 //@ opt noframe=true
 //@ # a chunk is at most one maximum-size DATA frame
 //@ ensures chunk: len(strm.pendingData) <= 16384 || sameslice(strm.pendingData, old(strm.pendingData))
+//@ # whatever the reader handed over is queued, also when it comes together with io.EOF or an error (io.Reader allows both)
+//@ ghost got = 0
+//@ ghost@ret:io.Reader.Read#1 got = ret0
+//@ ensures kept: got > 0 ==> len(strm.pendingData) == got && strm.bodyRead == old(strm.bodyRead) + got
 //@ ensures stream: strm.bodyStream == old(strm.bodyStream)
 //@ # a successful refill yields data, the end of the body, or both (a reader returning 0, nil is reported as an error)
 //@ ensures progress: r0 == nil ==> len(strm.pendingData) > 0 || strm.pendingEnd
@@ -1407,7 +1411,7 @@ package http2
 //@ ensures member: r0 == nil || exists(i, 0, len(strms), strms[i] == r0)
 
 //@ func (*Streams).Del
-//@ props C08 C13
+//@ props C08 C13 C09 C01
 //@ requires recv: strms != nil && forall(i, 0, len(*strms), (*strms)[i] != nil)
 //@ modifies *strms, contents(*strms)
 //@ loop 0: invariant scan: sameslice(*strms, old(*strms)) && forall(k, 0, rangeindex + 1, (*strms)[k].id != id) && strms != nil &&
@@ -1464,6 +1468,8 @@ package http2
 //@ loop 0: invariant keep: forall(i, 0, len(strms), strms[i] == entry(strms[i]))
 //@ loop 0: invariant sep: cap(done) == 0 || !samearray(done, strms)
 //@ loop 0: invariant done: forall(k, 0, len(done), done[k] != nil)
+//@ # every stream in the table has been looked at: one that is blocked on its own window says nothing about the next (C06)
+//@ loop 1: invariant all: rangeindexof(0) >= len(strms)
 //@ loop 1: invariant conn: scInv(sc)
 //@ loop 1: invariant sep: len(done) == 0 || !samearray(done, outer(strms))
 //@ loop 1: invariant done: forall(k, 0, len(done), done[k] != nil)
@@ -1485,6 +1491,7 @@ package http2
 //@ route truth_prioself C10
 //@ route truth_lowid C10
 //@ route disp C10
+//@ route rstidle C08 C09
 //@ route ends C10
 //@ route notclosing C10
 //@ route delta C06
@@ -1518,6 +1525,9 @@ package http2
 //@ ghost@call:(*serverConn).writeGoAway#2 noref = true
 //@ assert@call:(*serverConn).writeGoAway#1 truth_winstream: sc.lastID >= maxd
 //@ assert@call:(*serverConn).writeGoAway#2 truth_winconn: sc.lastID >= maxd
+//@ # RST_STREAM is a connection error only on a stream that is idle, i.e. above every stream opened so far; one that
+//@ # arrives late for a stream already closed is ignored (RFC 7540 5.1)
+//@ assert@call:(*serverConn).writeGoAway#3 rstidle: arg1 > sc.lastID
 //@ assert@call:(*serverConn).writeGoAway#3 truth_rstidle: sc.lastID >= maxd
 //@ assert@call:(*serverConn).writeGoAway#4 truth_closed: sc.lastID >= maxd
 //@ assert@call:(*serverConn).writeGoAway#5 truth_prioself: sc.lastID >= maxd
@@ -1716,3 +1726,17 @@ package http2
 //@ # connection - their HEADERS may be on the wire - so what they are resolved with is the reason the loop ended, or
 //@ # "unexpected EOF", never one of those three
 //@ assert@call:(*Ctx).resolve#1 inflight: arg1 != nil && arg1 != ErrConnectionClosed && arg1 != ErrNotAvailableStreams && arg1 != ErrNoMoreStreamIDs
+
+// ---- pooled frame bodies carry nothing over from their previous use ----
+
+//@ func (*Headers).Reset
+//@ props C01 C05 C08
+//@ requires recv: h != nil
+//@ modifies *h
+//@ ensures clean: !h.hasPadding && h.stream == 0 && h.weight == 0 && !h.endStream && !h.endHeaders && !h.priority && len(h.rawHeaders) == 0
+
+//@ func (*Data).Reset
+//@ props C01 C05
+//@ requires recv: data != nil
+//@ modifies *data
+//@ ensures clean: !data.endStream && !data.hasPadding && len(data.b) == 0
